@@ -9,7 +9,7 @@
     [line_num] and [_last_was_cr] after the call, or the error site with its line; it ends at the first error. *)
 From Coq Require Import List NArith ZArith Bool.
 From SV Require Import Text.Str Text.Prog Text.ProgProofs Text.Tokenizer Text.TokenizerProofs Text.KvErrModel Text.KvErrProofs
-  Text.BaseTok Text.BaseTokProofs Text.BaseTokTokenizer Text.BaseTokHelpers.
+  Text.BaseTok Text.BaseTokProofs Text.BaseTokTokenizer Text.BaseTokHelpers Text.ErrFmt Text.ErrFmtProofs.
 Import ListNotations.
 
 (** Generic: NO reader program can tell a chunked source from the flat string it denotes — same result, and the
@@ -208,4 +208,64 @@ Theorem c03_basetok_fifo_refuted :
   lifo c = false /\
   fst (run _ _ iter_get c [Push (STRING, [97]%N); Push (STRING, [98]%N); Call; Call] b)
   = [(true, inl (STRING, [97]%N)); (true, inl (STRING, [98]%N))].
+Proof. vm_compute. split; reflexivity. Qed.
+
+(** ---- the TEXT of an error (round 3): [str(exc)] = [format_exc_fileinfo(mess, file, line_num)], and the messages
+    [BaseTokenizer.error] builds for a token.  [c] are the pieces of the text for the four combinations "file is None" x
+    "line_num is None", regenerated from tokenizer.py on every run (a combination that raises is [None]); the check
+    discharges the boolean conditions for the generated [c]. ---- *)
+
+(** Formatting an error cannot itself fail (the AssertionError branch of [format_exc_fileinfo] is unreachable). *)
+Theorem c03_error_text_never_fails : forall c, fmt_total c = true ->
+  forall msg file line, format_fileinfo c msg file line <> None.
+Proof. exact fileinfo_total. Qed.
+
+(** The text starts with the message; without file and line it is the message. *)
+Theorem c03_error_text_starts_with_message : forall c, fmt_msg_first c = true ->
+  forall msg file line s, format_fileinfo c msg file line = Some s -> exists rest, s = msg ++ rest.
+Proof. exact fileinfo_starts_with_message. Qed.
+Theorem c03_error_text_plain : forall c, fmt_plain c = true -> forall msg, format_fileinfo c msg None None = Some msg.
+Proof. exact fileinfo_plain. Qed.
+
+(** A given line number appears in the text as a non-empty string of decimal digits; a given file name appears. *)
+Theorem c03_error_text_shows_line : forall c, fmt_line_shown c = true ->
+  forall msg file n s, format_fileinfo c msg file (Some n) = Some s -> exists a b, s = a ++ dec n ++ b.
+Proof. exact fileinfo_shows_line. Qed.
+Theorem c03_error_text_shows_file : forall c, fmt_file_shown c = true ->
+  forall msg f line s, format_fileinfo c msg (Some f) line = Some s -> exists a b, s = a ++ f ++ b.
+Proof. exact fileinfo_shows_file. Qed.
+Theorem c03_error_line_is_decimal : forall n, dec n <> [] /\ Forall (fun ch => (48 <= ch <= 57)%N) (dec n).
+Proof. intros n. split; [apply dec_nonempty|apply dec_digits]. Qed.
+
+(** [error(Token.X)] and [error(Token.X, value)] build a message for every member of [Token] (no KeyError from the
+    [_OPERATOR_VALS] fall-through, no IndexError from the value). *)
+Theorem c03_error_token_message_total : forall ts members, tmsgs_total ts members = true ->
+  forall t v, In t members -> token_message ts t v <> None.
+Proof. exact token_message_total. Qed.
+
+(** The error a tokenizer run ends with has the same text for every chunking of the input, whatever the message texts
+    of the error sites are ([msgf]) and whatever the file name; and that text exists, starts with the message and shows the
+    line the error was raised on. *)
+Theorem c03_error_text_any_chunking : forall c msgf file T o n fuel cs,
+  map (err_text c msgf file) (tokens_chk T o n fuel 1 false (chk_of_chunks cs))
+  = map (err_text c msgf file) (tokens_chk T o n fuel 1 false (chk_of_str (concat cs))).
+Proof. exact error_text_any_chunking. Qed.
+Theorem c03_error_text_shape : forall c msgf file e a line,
+  fmt_total c = true -> fmt_msg_first c = true -> fmt_line_shown c = true ->
+  exists s rest x y, err_text c msgf file (RErr e a line) = Some s /\ s = msgf e a ++ rest /\ s = x ++ dec line ++ y.
+Proof. exact error_text_shape. Qed.
+
+(** Non-vacuity (a configuration satisfying every condition, with a computed text) and a refutation: if one
+    combination raised, formatting would fail there. *)
+Definition ex_fcfg : fcfg := {|
+  f_none_none := Some [PMsg]; f_file_only := Some [PMsg; PLit [32]%N; PFile];
+  f_line_only := Some [PMsg; PLit [58]%N; PLine]; f_both := Some [PMsg; PLit [58]%N; PLine; PLit [32]%N; PFile] |}.
+Theorem c03_error_text_example :
+  fmt_total ex_fcfg = true /\ fmt_msg_first ex_fcfg = true /\ fmt_plain ex_fcfg = true /\ fmt_line_shown ex_fcfg = true
+  /\ fmt_file_shown ex_fcfg = true
+  /\ format_fileinfo ex_fcfg [109]%N (Some [102]%N) (Some 120%N) = Some [109; 58; 49; 50; 48; 32; 102]%N.
+Proof. vm_compute. repeat split; reflexivity. Qed.
+Theorem c03_error_text_raising_case_refuted :
+  let c := {| f_none_none := Some [PMsg]; f_file_only := None; f_line_only := Some [PMsg; PLine]; f_both := Some [PMsg; PLine; PFile] |} in
+  fmt_total c = false /\ format_fileinfo c [109]%N (Some [102]%N) None = None.
 Proof. vm_compute. split; reflexivity. Qed.
